@@ -165,6 +165,14 @@ def tree_of(v):
     return {"a": str(v)}
 
 
+def plain_of(v):
+    if isinstance(v, dict):
+        return {k: plain_of(x) for k, x in v.items()}
+    if isinstance(v, (list, tuple)):
+        return [plain_of(x) for x in v]
+    return v
+
+
 def wire_tree(v):
     if isinstance(v, dict):
         return {"d": [[str(k), wire_tree(x)] for k, x in v.items()]}
@@ -218,10 +226,32 @@ def apply_real(roots, root_schema, op):
         return "ok"
     if op["cfg"] >= len(roots):
         return "nocfg"
+    if op["op"] == "render":
+        r = roots[op["cfg"]]
+        try:
+            if op["how"] == "to_tree":
+                r.to_tree()
+            elif op["how"] == "to_tree_virtual":
+                r.to_tree(virtual=True)
+            elif op["how"] == "asdict":
+                cc.asdict(r)
+            else:
+                r.dumps(format="pickle")
+        except Exception:  # noqa
+            pass
+        return "ok"
     cfg = navigate(roots[op["cfg"]], op["path"])
     if cfg is None:
         return "nocfg"
     k = op["key"]
+    if op["op"] == "copyfrom":
+        if op["src"] >= len(roots):
+            return "nocfg"
+        try:
+            cfg[k] = roots[op["src"]]._data.get(k)
+            return "ok"
+        except Exception as e:  # noqa
+            return "err:" + type(e).__name__
     try:
         if op["op"] == "set":
             cfg[k] = copy.deepcopy(op["value"])
@@ -308,6 +338,17 @@ def gen_ops(rng, tables, live):
             nroots += 1
             continue
         ci = rng.randrange(nroots)
+        if r < 0.13:
+            # serialising a configuration is an operation on it too (and must leave everything else alone)
+            ops.append({"op": "render", "cfg": ci, "how": rng.choice(["to_tree", "to_tree_virtual", "dumps_pickle", "asdict"])})
+            continue
+        if r < 0.19 and nroots >= 2:
+            # a flat typed list / dict of scalars read from another configuration and assigned here: the assignment copies it
+            flat = [(nm, fd) for nm, fd in leaf_fields(tables, 0) if fd["kind"] in ("list_int", "dict_str_int")]
+            if flat:
+                nm, fd = rng.choice(flat)
+                ops.append({"op": "copyfrom", "cfg": ci, "path": [], "key": nm, "src": rng.choice([j for j in range(nroots) if j != ci])})
+                continue
         # choose a configuration: root, sub, or a list item
         path, sn = [], 0
         r2 = rng.random()
@@ -388,7 +429,11 @@ def wire(tables, ops, table):
         ws.append({"fields": fs, "dynamic": t["dynamic"]})
     wo = []
     for o in ops:
+        if o["op"] == "render":
+            continue
         w = dict(o)
+        if o["op"] == "copyfrom":
+            w = {"op": "set", "cfg": o["cfg"], "path": o["path"], "key": o["key"], "value": o.get("value_seen")}
         if "value" in w:
             w["value"] = wire_tree(w["value"])
         if "how" in w:
@@ -451,9 +496,12 @@ def one_case(ctx, res, i, table, reqs, pend):
     deep_shared_mut = False
     for n, op in enumerate(ops):
         before = observe(roots, schemas)
+        if op["op"] == "copyfrom" and op["src"] < len(roots):
+            op["value_seen"] = plain_of(roots[op["src"]]._data.get(op["key"]))
         out = apply_real(roots, root_schema, op)
         after = observe(roots, schemas)
-        trace.append({"out": out if not out.startswith("err:") else "type", "cfgs": after["cfgs"], "dyn": after["dyn"], "defaults": after["defaults"]})
+        if op["op"] != "render":
+            trace.append({"out": out if not out.startswith("err:") else "type", "cfgs": after["cfgs"], "dyn": after["dyn"], "defaults": after["defaults"]})
         res.hist["op:" + op["op"]] += 1
         res.hist["out:" + out.split(":")[0]] += 1
         where = dict(case, at=n)
